@@ -7,7 +7,6 @@ use crate::elem::{Pair, Var};
 use alloy_primitives::{U128, U256};
 use milhouse::update_map::MaxMap;
 use std::collections::BTreeMap;
-use std::io::Write;
 use tree_hash::Hash256;
 use typenum::{
     U1, U1024, U1099511627776, U16, U17, U2, U281474976710656, U3, U32, U33, U4, U5,
@@ -120,9 +119,4 @@ pub fn dispatch(
         "var" => run_var(n, map, ops, out, hdr),
         _ => None,
     }
-}
-
-#[allow(dead_code)]
-fn _assert_out_is_write(out: &mut Out) {
-    let _ = out.flush();
 }
